@@ -60,7 +60,25 @@ Types(d) ==
                                                  WellTyped2(q[1], q[2], q[3])}}
 
 CONSTANT Depth
-EnumTypes == PrintT(<<"TYPES", ToJson(Types(Depth))>>)
+
+(* The BULK layer (depth 3, systematic): a specialised bulk helper of a        *)
+(* wrapper W is reached only when some container or forwarding wrapper O hands *)
+(* its elements to W's helper, i.e. from terms O(W(leaf)).  Every such O over  *)
+(* every depth-2 term W(leaf) with a heap-owning and a heap-free representative*)
+(* leaf is enumerated (the full depth-3 product has ~10^5 terms; this slice is *)
+(* the part of it on which a helper can differ from the element-wise sum).     *)
+LeafRep == {"String", "u8"}
+Inner ==
+    {T1(p[1], T0(p[2])) : p \in {q \in Unary \X LeafRep : WellTyped1(q[1], T0(q[2]))}}
+    \cup {T2(p[1], T0(p[2]), T0(p[3])) : p \in Binary \X LeafRep \X LeafRep}
+BulkOuter == {"Vec", "BoxSlice", "Array3", "BinaryHeap", "HashSet", "Tuple1", "Wrapping", "Box",
+              "Option", "RwLock"}
+BulkTypes ==
+    {T1(p[1], p[2]) : p \in {q \in BulkOuter \X Inner : WellTyped1(q[1], q[2])}}
+    \cup {T2("HashMap", T0("u8"), t) : t \in Inner}
+    \cup {T2("Tuple2", t, T0("String")) : t \in Inner}
+    \cup {T2("Result", T0("u8"), t) : t \in Inner}
+EnumTypes == PrintT(<<"TYPES", ToJson(Types(Depth) \cup BulkTypes)>>)
 
 -----------------------------------------------------------------------------
 (* 2. the algebra *)
